@@ -74,7 +74,7 @@ Leaf(r, d) == [cls |-> r.cls, code |-> r.code, flags |-> r.flags, vendor |-> r.v
 DictLeaves == UNION {{Leaf(r, d) : d \in r.datas} : r \in LeafReps}
 GenericLeaves == {[cls |-> "", code |-> c, flags |-> (IF v = <<>> THEN 0 ELSE 128) + f, vendor |-> v, data |-> DataOfLen(n),
                    members |-> <<>>, group |-> FALSE] :
-                  c \in {<<0,1,134,150>>, <<255,255,255,255>>}, v \in {<<>>, <<0,1,134,159>>, <<255,255,255,255>>},
+                  c \in {<<0,1,134,150>>, <<255,255,255,255>>}, v \in {<<>>, <<0,1,134,159>>, <<255,255,255,255>>, <<0,0,0,0>>, <<0,0,0,1>>},
                   f \in {0, 64, 32, 96}, n \in 0..9}
 Leaves == DictLeaves \cup GenericLeaves
 Grp(g, ms) == [cls |-> g.cls, code |-> g.code, flags |-> g.flags, vendor |-> g.vendor, data |-> <<>>, members |-> ms, group |-> TRUE]
